@@ -11,6 +11,11 @@
 //@ bound: unbounded: every number of palpable objects, every position, every n (incl. usize::MAX)
 //@ clause: for ALL N and n: pre: invariant. post: Some iff n < remaining; exactly min(n+1, remaining) values are consumed; the attributes' counted view grows by exactly the deltas of the consumed objects (so the value returned by nth(n) counts the same objects as n+1 calls of next()); invariant preserved; all indices in bounds; no overflow (rewrites R10, R11 and a local verified cmp::min are used)
 //@ assume: R10: slice.iter().skip(S).take(T) visits the elements S, S+1, ... while in range, at most T of them; R11: Option::filter with a constant predicate; `cmp::min` on usize is a local verified definition
+//@ obl: id=U12.catch.perf.verus fn=CatchGradualPerformance::nth props=C15,C03,C05 tier=quick kind=proof twin=yes pair=U12.catch.perf.n2
+//@ fns: CatchGradualPerformance::nth, CatchGradualPerformance::next, CatchGradualPerformance::last, CatchGradualPerformance::len
+//@ bound: unbounded; modular: checked against the contract of CatchGradualDifficulty::nth proved above, not its body
+//@ clause: for ALL N and n: the gradual performance calculator's nth(state, n) consumes exactly min(n+1, remaining) objects and returns None exactly when nothing remains; next == nth(0); last == nth(usize::MAX) consumes everything; len() == remaining
+//@ assume: the performance builder chain (performance/state/difficulty/passed_objects/calculate) is declared as external_body functions: calculate() returns Ok (own-mode attributes need no conversion); what the builder receives is obligation U12.catch.perf.* (Kani)
 //@ obl: id=U12.catch.len.verus fn=CatchGradualDifficulty::len props=C15,C05 tier=quick kind=proof twin=yes pair=U12.catch.protocol.n1
 //@ fns: CatchGradualDifficulty::len (ExactSizeIterator::len)
 //@ bound: unbounded
@@ -79,7 +84,78 @@ impl DifficultyValues {
     { unimplemented!() }
 }
 
+#[verifier::external_body] pub struct CatchScoreState { _p: () }
+#[verifier::external_body] pub struct CatchPerformanceAttributes { _p: () }
+#[verifier::external_body] pub struct CatchPerformance { _p: () }
+#[verifier::external_body] #[derive(Debug)] pub struct ConvertError { _p: () }
+
+/// the passed_objects value the builder was last given
+pub uninterp spec fn passed(p: CatchPerformance) -> u32;
+
+impl Clone for Difficulty {
+    #[verifier::external_body]
+    fn clone(&self) -> Self { unimplemented!() }
+}
+impl CatchDifficultyAttributes {
+    #[verifier::external_body]
+    fn performance(self) -> CatchPerformance { unimplemented!() }
+}
+impl CatchPerformance {
+    #[verifier::external_body]
+    fn state(self, state: CatchScoreState) -> (r: Self) { unimplemented!() }
+    #[verifier::external_body]
+    fn difficulty(self, difficulty: Difficulty) -> (r: Self) { unimplemented!() }
+    #[verifier::external_body]
+    fn passed_objects(self, passed_objects: u32) -> (r: Self)
+        ensures passed(r) == passed_objects
+    { unimplemented!() }
+    #[verifier::external_body]
+    fn calculate(self) -> (r: Result<CatchPerformanceAttributes, ConvertError>)
+        ensures r.is_ok()
+    { unimplemented!() }
+}
+
 /*@extract struct file=src/catch/difficulty/gradual.rs name=CatchGradualDifficulty */
+
+/*@extract struct file=src/catch/performance/gradual.rs name=CatchGradualPerformance */
+
+impl CatchGradualPerformance {
+/*@extract fn file=src/catch/performance/gradual.rs impl=CatchGradualPerformance name=nth ret=r
+@spec
+        requires old(self).difficulty.inv()
+        ensures
+            final(self).difficulty.inv(),
+            final(self).difficulty.count@ == old(self).difficulty.count@,
+            r.is_some() <==> old(self).difficulty.remaining() > 0,
+            final(self).difficulty.idx == old(self).difficulty.idx
+                + (if n < old(self).difficulty.remaining() { n + 1 } else { old(self).difficulty.remaining() }),
+*/
+
+/*@extract fn file=src/catch/performance/gradual.rs impl=CatchGradualPerformance name=next ret=r
+@spec
+        requires old(self).difficulty.inv()
+        ensures
+            final(self).difficulty.inv(),
+            r.is_some() <==> old(self).difficulty.remaining() > 0,
+            final(self).difficulty.idx == old(self).difficulty.idx + (if old(self).difficulty.remaining() > 0 { 1int } else { 0int }),
+*/
+
+/*@extract fn file=src/catch/performance/gradual.rs impl=CatchGradualPerformance name=last ret=r
+@spec
+        requires old(self).difficulty.inv()
+        ensures
+            final(self).difficulty.inv(),
+            r.is_some() <==> old(self).difficulty.remaining() > 0,
+            final(self).difficulty.remaining() == 0,
+*/
+
+/*@extract fn file=src/catch/performance/gradual.rs impl=CatchGradualPerformance name=len ret=r
+@spec
+        requires self.difficulty.inv()
+        ensures r == self.difficulty.remaining()
+*/
+}
+
 
 impl CatchGradualDifficulty {
     /// representation invariant (N = number of palpable objects)
